@@ -43,11 +43,11 @@ func (f *Isqrt) Call(s *slip.Scope, args slip.List, depth int) (result slip.Obje
 	slip.CheckArgCount(s, depth, f, args, 1, 1)
 	switch ta := args[0].(type) {
 	case *slip.Bignum:
-		result = (*slip.Bignum)(new(big.Int).Sqrt((*big.Int)(ta)))
+		result = slip.IntegerFromBig(new(big.Int).Sqrt((*big.Int)(ta)))
 	case *slip.LongFloat:
 		var z big.Int
 		bi, _ := new(big.Float).Sqrt((*big.Float)(ta)).Int(&z)
-		result = (*slip.Bignum)(bi)
+		result = slip.IntegerFromBig(bi)
 	case slip.Real:
 		rv := ta.RealValue()
 		if rv < 0.0 {
